@@ -111,8 +111,10 @@ class CliWorld(World):
 
 
 def file_slot(w, i, parent=None):
+    # a file named on the command line may carry any extension or none (eligibility by extension is a format-all matter only)
     return w.add(i, readable=z3.Bool('readable%d' % i), content=OStr(('c', i)), err=z3.Bool('err%d' % i),
-                 chg=z3.Bool('chg%d' % i), wfail=z3.Bool('wfail%d' % i), parent=parent)
+                 chg=z3.Bool('chg%d' % i), wfail=z3.Bool('wfail%d' % i), parent=parent,
+                 hasext=z3.Bool('hasext%d' % i), ext_typ=z3.And(z3.Bool('hasext%d' % i), z3.Bool('ext%d' % i)))
 
 
 def sym_args(mode, w, k, walk_dir_given=True, levels=(False, False), debug=(False, False)):
@@ -507,7 +509,7 @@ def structural(S):
 # native replay: build the modelled world in a temp dir and run the real binary
 
 RICH = ('#import "a.typ": c, b, a\n#let   f( x )   =   {\n  if x {\n    (aaaaaaaaaaaa, bbbbbbbbbbbb, cccccccccccc, dddddddddddd, eeeeeeeeeeee, ffffffffffff)\n  }\n}\n'
-        '- item\n  - nested #f(true)\n')
+        '- item\n  - nested #f(true)\n\n\n')      # ends in blank lines: the library keeps them, so must every front-end
 ERRONEOUS = '#let x = (\n'
 
 
@@ -598,7 +600,8 @@ def replay_native(S, info):
             rank = {sid: r for r, sid in enumerate(ranked)}
             for i in ids:
                 e = slots[str(i)]
-                paths[i] = os.path.join(tmp, '%s%d.typ' % ('abcdefgh'[rank[i]], i))
+                ext = '.typ' if e.get('ext_typ', True) else ('.txt' if e.get('hasext') else '')
+                paths[i] = os.path.join(tmp, '%s%d%s' % ('abcdefgh'[rank[i]], i, ext))
                 files[i] = content_for(S, e, info)
                 open(paths[i], 'wb').write(files[i])
                 cmd.append(paths[i])
